@@ -174,7 +174,8 @@ pub const TYPES: &[&str] = &["angle", "bit", "bool", "complex", "duration", "flo
 pub const PUNCT: &str = "!$%&()*+,-./:;<=>?@[]^_{|}~";
 const UNSAFE_PUNCT: &str = "/.@$_*";
 const IDENT_START: &[char] = &['a', 'x', 'q', 'Z', '_', 'é', 'λ', '变', 'π', 'O', 'p'];
-const IDENT_CONT: &[char] = &['a', 'b', 'z', 'Q', '0', '7', '_', 'é', '量', 'm', 's'];
+// (the last four may continue an identifier but not start one: a combining mark, the middle dot, a non-ASCII digit, a Thai vowel sign)
+const IDENT_CONT: &[char] = &['a', 'b', 'z', 'Q', '0', '7', '_', 'é', '量', 'm', 's', '\u{302}', '\u{b7}', '\u{663}', '\u{e33}'];
 
 fn kw_kind(s: &str) -> Option<SyntaxKind> {
     SyntaxKind::from_keyword(s).or(SyntaxKind::from_scalar_type(s))
